@@ -1119,6 +1119,120 @@ def model_filter(case):
     return True
 
 
+
+# ---------------------------------------------------------------------------------------------
+# boundary-sizes sub-stream: the Lean models use unbounded Nat / exact rationals, so narrowing, scratch arrays, allocation
+# steps and O(n^2) in-row sorts of the C++ code are only visible to the correspondence - and only if sizes cross them
+# ---------------------------------------------------------------------------------------------
+
+def _val(k):
+    return Fraction(2 * (k % 17) + 3, 1 + k % 5) * (-1 if k % 3 == 0 else 1)
+
+
+def _csr(rows, cols, ent):
+    """ent: dict (i, j) -> value"""
+    rp, ci, val = [0], [], []
+    byrow = {}
+    for (i, j), v in ent.items():
+        byrow.setdefault(i, []).append((j, v))
+    for i in range(rows):
+        for j, v in sorted(byrow.get(i, [])):
+            ci.append(j)
+            val.append(v)
+        rp.append(len(ci))
+    return "csr %d %d %s %s %s" % (rows, cols, fl(rp), fl(ci), flq(val))
+
+
+def boundary_cases(tier):
+    sizes = [127, 128, 129, 255, 256, 257, 1000, 1001]
+    big = [32767, 32768, 65535, 65536, 65537] if tier == "thorough" else []
+    out = []
+    k = 0
+    for n in sizes + big:
+        it = 32 if n % 2 else 64
+        small = n <= 1001
+        rev = list(range(n))[::-1]
+        rot = [(i + 2) % n for i in range(n)]
+        # tall n x 3 and wide 3 x n CSR, entries only at the HIGH end (last rows / highest columns)
+        tall = {(n - 1, 0): _val(k), (n - 1, 2): _val(k + 1), (n - 2, 1): _val(k + 2), (n - 3, 0): _val(k + 3), (0, 2): _val(k + 4)}
+        wide = {(0, n - 1): _val(k), (2, n - 1): _val(k + 1), (2, n - 2): _val(k + 2), (1, n - 3): _val(k + 3), (2, 0): _val(k + 4)}
+        k += 5
+        out.append("%d %s 2 tr tr" % (it, _csr(n, 3, tall)))
+        out.append("%d %s 2 tri it" % (it, _csr(3, n, wide)))
+        out.append("%d %s 2 perm %s %s tr" % (it, _csr(n, 3, tall), fl(rot), fl([2, 0, 1])))
+        out.append("%d %s 1 perm %s %s" % (it, _csr(3, n, wide), fl([1, 2, 0]), fl(rev)))
+        out.append("%d %s 3 tocscr tocsr xclone 0 1 2" % (it, _csr(n, 3, tall)))          # row_numbers lookup at the high end
+        out.append("32 %s 2 it clone 3" % _csr(3, n, wide))                                  # u32 column indices up to n-1
+        # CSCR given directly, only the last rows stored
+        out.append("%d cscr %d 3 %s %s %s %s 2 tocsr tr" % (it, n, fl([0, 1, 3]), fl([1, 0, 2]), flq([_val(k), _val(k + 1), _val(k + 2)]),
+                                                             fl([n - 2, n - 1])))
+        # dense n x 2: out-of-place, self and in-place transposes
+        dv = [_val(k + t) if t >= 2 * n - 6 else Fraction(0) for t in range(2 * n)]
+        out.append("%d dense %d 2 %s 3 tr trs tri" % (it, n, flq(dv)))
+        # banded: n x 1 and 1 x n with the two extreme offsets 0 and rows+cols-2, and n x 2 with all offsets near the end
+        if small:
+            out.append("%d banded %d 1 %s %s 2 tocsr tobanded" % (it, n, fl([0, n - 1]), flq([_val(k + t) if t in (n - 1, n, 2 * n - 1) else Fraction(0) for t in range(2 * n)])))
+            out.append("%d banded 1 %d %s %s 2 tocsr tr" % (it, n, fl([0, n - 1]), flq([_val(k), _val(k + 1)])))
+            out.append("%d %s 2 tobanded tocsr" % (it, _csr(n, 3, tall)))                  # offsets up to rows + cols - 2
+            out.append("%d %s 2 tobanded tocsr" % (it, _csr(3, n, wide)))
+            # one row with n entries (>= 256 entries in one row for n >= 256), reversed by the column permutation:
+            # worst case of the in-row insertion sort; counting sort with n + 1 buckets
+            long_row = {(1, j): _val(k + j) for j in range(n)}
+            long_row[(0, n - 1)] = _val(k)
+            out.append("%d %s 2 perm %s %s tr" % (it, _csr(2, n, long_row), fl([1, 0]), fl(rev)))
+            out.append("%d %s 2 tr tocscr" % (it, _csr(2, n, long_row)))
+            # every row stored except two near the end: n - 2 used rows in the CSCR row_numbers lookup, then back to CSR
+            many = {(i, i % 2): _val(k + i) for i in range(n) if i not in (n - 3, n - 5)}
+            out.append("%d %s 3 tocscr tocsr tr" % (it, _csr(n, 2, many)))
+            # vectors: permutation of n entries, SparseVector beyond its 1000-slot allocation step
+            out.append("%d vec %s 1 vperm %s" % (it, flq([_val(t) for t in range(n)]), fl(rot)))
+            out.append("%d vecx sv %d %s %s 2 xclone 0 1 2 xconv 1 1" % (it, n + 7, fl(list(range(7, n + 7))), flq([_val(t) for t in range(n)])))
+            out.append("%d vecx dv %s 1 xclone 0 1 3" % (it, flq([_val(t) for t in range(n)])))
+        k += 8
+    # one cheap case beyond 2^16 also in the quick tier: u32 column indices 65535 / 65536 through the index-type round trip
+    w = {(0, 65536): _val(1), (1, 65535): _val(2), (1, 65536): _val(3), (0, 0): _val(4)}
+    out.append("32 %s 1 it" % _csr(2, 65537, w))
+    # allocation rounding of MemoryPool (multiples of 4 elements): value / index arrays of 1..9 elements
+    for nnz in range(1, 10):
+        ent = {(t // 3, t % 3): _val(t) for t in range(nnz)}
+        out.append("32 %s 3 clone 3 tr tocscr" % _csr(3, 3, ent))
+    return out
+
+
+def permuted_rows_cases():
+    """rows with 3..6 entries (CSR) / blocks (BCSR) under ALL column permutations (in-row re-sort: elements moved by
+    >= 2 slots), with a second shorter row; 6 + 24 + 120 + 720 permutations per format"""
+    out = []
+    for nb in (3, 4, 5, 6):
+        ent = {(0, j): _val(j) for j in range(nb)}
+        ent.update({(1, j): _val(10 + j) for j in range(1, nb)})
+        c = _csr(2, nb, ent)
+        bh, bw = (2, 3) if nb % 2 else (2, 2)
+        nblk = 2 * nb - 1
+        b = "bcsr %d %d 2 %d %s %s %s" % (bh, bw, nb, fl([0, nb, nblk]), fl(list(range(nb)) + list(range(1, nb))),
+                                          flq([_val(t) for t in range(nblk * bh * bw)]))
+        for q in itertools.permutations(range(nb)):
+            out.append("32 %s 1 perm %s %s" % (c, fl([1, 0]), fl(list(q))))
+            out.append("64 %s 1 perm %s %s" % (b, fl([1, 0]), fl(list(q))))
+    return out
+
+
+def describe_boundary(case):
+    t = case.split()
+    dims = []
+    if t[1] in ("vec", "vecx"):
+        dims = [int(t[2])] if t[1] == "vec" else [int(t[3])]
+        kind = t[1]
+    elif t[1] == "bcsr":
+        dims = [int(t[4]), int(t[5])]
+        kind = "bcsr-row-blocks"
+    else:
+        dims = [int(t[2]), int(t[3])]
+        kind = t[1]
+    return ["size:%d" % max(dims), "fmt:" + kind] + ["op:" + w for w in set(t) if w in (
+        "tr", "trs", "tri", "perm", "tocsr", "tocscr", "tobanded", "it", "xclone", "xconv", "vperm", "clone")]
+
+
 def canon(out):
     if out.startswith("ABORT"):
         return "ABORT"
@@ -1148,6 +1262,14 @@ def main(argv):
         cases = CORPUS + extra + perm_enumeration() + (gen_cases(rng, 6000) if args.tier == "quick" else gen_cases(rng, 150000, big=True))
     st = vlib.Stream("chains", cases, [binary], vlib.driver_cmd(PROP), oracle=oracle, nontrivial=nontrivial,
                      describe=describe, signature=signature, canon=canon, model_filter=model_filter)
+    streams = [st]
+    if not args.replay:
+        # sizes / indices / counts just below, at and above 128, 256, 1000 (thorough: 32768, 65536 = 2^16 for the u32
+        # index type), the content at the high end; rows with 3..6 entries / blocks under all column permutations
+        bcases = boundary_cases(args.tier) + permuted_rows_cases()
+        streams.append(vlib.Stream("boundary-sizes", bcases, [binary], vlib.driver_cmd(PROP), oracle=oracle,
+                                   nontrivial=lambda c: True, describe=describe_boundary, signature=signature, canon=canon,
+                                   model_filter=model_filter))
     stats_rule = ("random matrices in CSR / CSCR / banded / BCSR(2x2,2x3,3x2) / dense form (dims 0..6, thorough ..14; entry-free, "
                   "single entry, empty rows in leading/middle/trailing position, rectangular, all band sets) followed by "
                   "chains of 0..12 operations (format conversion, the 4 clone modes, layout/graph rebuild, transpose in and "
@@ -1157,8 +1279,12 @@ def main(argv):
                   "chains X<Q,IT> -> X<DT2,IT2> -> X<Q,IT> for every format, type combination and the 5 clone modes with "
                   "write-after-clone and format-source observations); non-trivial = chain length >= 2 "
                   "or a format change or an entry-free matrix")
-    rc = vlib.run_pipeline(PROP, args.tier, args.seed, lean, [st], t0, assumptions=[
-        "Index modelled as unbounded Nat (no 32/64-bit overflow at the sizes FEAT can allocate)",
+    rc = vlib.run_pipeline(PROP, args.tier, args.seed, lean, streams, t0, assumptions=[
+        "Index / IT_ (u32, u64) / array sizes are modelled as unbounded Nat and scalars as exact rationals: narrowing casts IT_(...), "
+        "scratch arrays (transpose's counting-sort buckets, permute's new IT_[rows+1] / new DT_[nnz]), MemoryPool's rounding of "
+        "allocations to multiples of 4, SparseVector's 1000-slot allocation step, the O(n^2) in-row insertion sort and the CSCR "
+        "row_numbers search are invisible to the theorems; the boundary-sizes stream (sizes 127..1001, thorough ..65537, content at "
+        "the high end) is what ties them; index values >= 2^32 are not reachable (memory)",
         "data-type round trip Q -> double -> float -> Q: compared exactly against truncation to 53 bits followed by "
         "round-to-nearest-even to 24 bits (what mpq_get_d and the C cast do); exponent range not exercised",
         "index-type round trip u32 <-> u64: every index that can occur is < 2^32 (dimensions of allocatable matrices), "
